@@ -50,7 +50,10 @@ CLAIMS = {
              "fresh allocation for {**a,**b}, dict(a), comprehensions) on which five accumulating helpers "
              "(_conforming_sum, _conforming_weighted_average, _values_add, _values_diff, _merge_cell_pair) are modelled "
              "statement by statement, each parameterised by its ACCUMULATOR PATTERN regenerated from /repo's AST on "
-             "every run (how each augmented/subscript assignment target is initialised). 19 kernel-checked theorems: "
+             "every run (how each augmented/subscript assignment target is initialised); round 2 added cells on the heap and 12 more "
+             "helpers (Cell.replace/select/derive_fields/derive_metadata/add_statics, _overwrite_values, _thin_cell, "
+             "_convert_cell_currency, summarize_cell_values, the policy-year accumulation loop, blend_cells, "
+             "_weight_cell_values). 34 kernel-checked theorems: "
              "frame_<fn> (every location reachable from the arguments is unchanged after the call, also when it "
              "raises), pattern_<fn>.targetsFresh = true by decide for the regenerated patterns, all_patterns_fresh over "
              "25 anchor functions, frame_chain (position in a chain), and a negative control (total := values[0] "
@@ -263,14 +266,14 @@ CLAIMS = {
              "renormalisation, share and pattern normalisation). Policy-year conversion with continuous_issuance=False "
              "and accident periods no policy reaches is outside the share table's contract (reported as uncovered).",
         tech="Lean 4 theorems over Q (conservation laws) + regenerated tables + differential correspondence"),
-    "C20": dict(level=TV, ref="§7 C20",
-        text="19 kernel-checked theorems about the model of build_plot_data and FieldSummary: "
+    "C20": dict(level=PV, ref="§7 C20",
+        text="PARTIAL (altair/Vega-Lite validity is library behaviour, correspondence only). 20 kernel-checked theorems, none open, about the model of build_plot_data and FieldSummary: "
              "records_one_per_cell_in_order, lossRatio_value (100*loss/premium), passthrough_value, ata_value, "
              "absent_input_no_summary, quantile_levels_named and quantile_levels_sorted (decide +kernel over the "
              "tables regenerated from /repo: q2_5 -> 1/40 ... q97_5 -> 39/40 position by position), quantile_mono "
              "(numpy's linear-interpolation quantile over Q is monotone in the level), min_le_quantile_le_max, "
              "summary_monotone, neighbours_same_slice. The metric table (COMMON_METRIC_DICT bodies, arity, order) is "
-             "regenerated each run. One bridge statement OPEN. Correspondence: records of build_plot_data vs model, the "
+             "regenerated each run. spec_holds_on_model proves the whole executable Spec on the model's output. Correspondence: records of build_plot_data vs model, the "
              "Lean Spec on the implementation's records, percentiles recomputed independently with fractions, and "
              "every working plot_* method validated against altair's bundled Vega-Lite schema with one facet per slice.",
         note=COMMON_NOTE + "altair/Vega-Lite validity and the chart builders are library behaviour (correspondence only); "
